@@ -24,8 +24,8 @@ func run(r *ev.Run) {
 		"a porcupine timeout is inconclusive",
 	}
 	dir := r.TempDir()
-	nGated := r.Scale(120, 2400)
-	r.MinDistinct = r.Scale(40, 800)
+	nGated := r.Scale(300, 2400)
+	r.MinDistinct = r.Scale(100, 800)
 
 	cfgs := gatedCfgs()
 	var wg sync.WaitGroup
